@@ -304,6 +304,19 @@ Definition sgt (a b : score) : bool :=          (* Go's > on float64 *)
 
 Definition qN (n : N) : Q := inject_Z (Z.of_N n).
 
+(* Float64() of math/big Int for a non-negative integer: the nearest float64, ties to the even significand
+   (53 significant bits; the exponent range is not reached below 2^1024).  The result is an integer
+   again and is given as such.  beaconblockproposal/best: consensus and execution value are summed
+   as big.Int FIRST and the sum is converted once. *)
+Definition round53 (n : N) : N :=
+  let k := N.log2 n in
+  if k <? 53 then n else
+  let s := k - 52 in                      (* bits dropped *)
+  let q := n / 2 ^ s in                   (* 53-bit significand, 2^52 <= q < 2^53 *)
+  let r := n mod 2 ^ s in
+  let h := 2 ^ (s - 1) in
+  (if (h <? r) || ((r =? h) && N.odd q) then q + 1 else q) * 2 ^ s.
+
 Definition head_slot (pr : params) (root : N) : N :=
   match lookup (p_cache pr) root with Some s => s | None => 0 end.
 
@@ -317,7 +330,7 @@ Definition score_of (st : strategy) (pr : params) (r : raw) : score :=
       end
   | AggBest, RAgg _ set len =>
       if len =? 0 then SNaN else SFin (Qmake (Z.of_N set) (N.succ_pos (len - 1)))
-  | PropBest, RProp _ _ cv ev => SFin (qN (cv + ev))
+  | PropBest, RProp _ _ cv ev => SFin (qN (round53 (cv + ev)))   (* wei, any size: 2^64 wei is 18.45 ETH *)
   | ContribBest, RContrib _ set => SFin (qN set)
   | RootLatest, RRoot root => SFin (qN (head_slot pr root))
   | _, _ => SFin 0
